@@ -124,6 +124,17 @@ def step (regs : Regs) (line : String) : Regs × String :=
     | some (some k), some thr => valOp regs r d (fun s => some (s.filter fun row => decide (row.key k ≤ thr)))
         (fun s => some { s with rows := s.rows.filter fun row => decide (row.key k ≤ thr) })
     | _, _ => (regs, "bad-op")
+  | ["filternz", r, d, src] =>
+    -- a numeric predicate: energy | occm1 (num_occurrences - 1) | col:<j> (the value of column j)
+    let val? : Option (Row → Rat) :=
+      if src = "energy" then some (·.energy)
+      else if src = "occm1" then some (fun row => (row.occ : Rat) - 1)
+      else if src.startsWith "col:" then ((src.drop 4).toString.toNat?).map fun j => fun row => row.sample.getD j 0
+      else none
+    match val? with
+    | some val => valOp regs r d (fun s => some { s with rows := filterTruthy s.rows val })
+        (fun s => some { s with rows := s.rows.filter fun row => decide (val row ≠ 0) })
+    | none => (regs, "bad-op")
   | ["filtermask", r, d, bits] =>
     valOp regs r d (fun s => some { s with rows := maskSelect s.rows ((splitOr "," bits).map (· = "1")) })
   | ["relabel", r, d, m] => match parseMapping? m with
